@@ -598,7 +598,12 @@ def context_grid(ctx, level):
         rep = {"prql": c["text"], "grid": list(c["id"]), "reference": c["name"], "compiler": ic, "twin": c["twin"], "twin_compiler": tc,
                "sql": (a.get("sql") or "")[:400]}
         if ic[0] == "ok":
-            ctx.oracle_failure(None, f"reference `{c['name']}` ({rk}) at {pos} under {cl} over {base}: the ill-scoped program compiles to SQL", rep)
+            # listed finding: the field names of a range / tuple argument leak into the scope of the enclosing transform; the reference
+            # then resolves to a tuple field that is never lowered, and the program is accepted where the value is not needed
+            leak = (rk in ("range-field", "range-field-end", "tuple-alias") and pos in ("aggregate", "group-aggregate", "unused-let")
+                    and ((c["name"] in ("start", "end") and ".." in c["text"]) or (c["name"] + " =") in c["text"]))
+            ctx.oracle_failure("tuple-field-name-leaks-into-scope" if leak else None,
+                               f"reference `{c['name']}` ({rk}) at {pos} under {cl} over {base}: the ill-scoped program compiles to SQL", rep)
         elif ic[0] == "panic":
             ctx.oracle_failure(None, f"reference `{c['name']}` ({rk}) at {pos} under {cl} over {base}: the compiler panics: {ic[1]}", rep)
         elif tc[0] == "ok" and not (ic[0] == c["expect"] and (ic[0] == "ambiguous" or strip_this(ic[1]) == c["name"])):
